@@ -17,13 +17,15 @@ pid = a[0]
 checks = [pid]
 tier = "quick"
 rnd = ""
+root = "/tmp/wt"
 i = 1
 while i < len(a):
     if a[i] == "--checks": checks = a[i + 1].split(","); i += 2
     elif a[i] == "--round": rnd = a[i + 1]; i += 2
     elif a[i] == "--tier": tier = a[i + 1]; i += 2
+    elif a[i] == "--root": root = a[i + 1]; i += 2
     else: i += 1
-wt, out = "/tmp/wt/" + pid, "/tmp/wt/out%s_%s" % (rnd, pid)
+wt, out = root + "/" + pid, "%s/out%s_%s" % (root, rnd, pid)
 
 def sh(cmd, cwd=None, timeout=3600):
     r = subprocess.run(cmd, shell=True, cwd=cwd, capture_output=True, text=True, timeout=timeout)
@@ -109,5 +111,5 @@ for k in sorted(os.listdir(out)):
         meta["checks_run"] = chk
         meta["caught_by"] = rec["caught_by"]
         json.dump(meta, open(os.path.join(dst, "meta.json"), "w"), indent=1)
-json.dump(results, open("/tmp/wt/confirm%s_%s.json" % (rnd, pid), "w"), indent=1)
+json.dump(results, open("%s/confirm%s_%s.json" % (root, rnd, pid), "w"), indent=1)
 print("SUMMARY", pid, [(r["id"], r.get("confirmed"), r.get("caught_by")) for r in results])
